@@ -32,6 +32,16 @@ def _tree_funcs():
 TREE_FUNCS = _tree_funcs()
 
 
+def _handle_funcs():
+    """the functions a reader's own handle runs: everything of FatIO.py, and the chain follower it drives step by step"""
+    import ast
+    t = ast.parse(open(os.path.join(PYFAT_DIR, "FatIO.py")).read())
+    return {n.name for n in ast.walk(t) if isinstance(n, (ast.FunctionDef, ast.AsyncFunctionDef))} | {"get_cluster_chain", "read_cluster_contents"}
+
+
+HANDLE_FUNCS = _handle_funcs()
+
+
 def reader_prog(rng, tree):
     files = sorted(p for p, t in tree.items() if t[0] == "f")
     dirs = ["/"] + sorted(p for p, t in tree.items() if t[0] == "d")
@@ -117,7 +127,7 @@ def run(ctx):
         r0 = ImplRun.__new__(ImplRun)
         r0.fs = f0
         tree = ImplRun.walk(r0)
-        for pi in range(ctx.scale(3, 20)):
+        for pi in range(ctx.scale(4, 20)):
             if ctx.time_left() < 15:
                 break
             nthreads = rng.choice([2, 2, 3])
@@ -126,6 +136,10 @@ def run(ctx):
                 progs = [[("listdir", "/dir one"), ("read", "/dir one/inner/deep file.bin", 0, 1700)], [("exists", "/dir one/inner/deep file.bin"), ("read", "/A.TXT", 100, 500)]]
             if pi == 1:   # two readers on the SAME file over several clusters, each through its own handle, at different offsets (C18-m5)
                 progs = [[("read", "/dir one/inner/deep file.bin", 0, 1700)], [("read", "/dir one/inner/deep file.bin", 600, 1000), ("read", "/dir one/inner/deep file.bin", 1300, 300)]]
+            if pi == 2:   # ... one of them only in the first clusters while the other looks further in, then both everywhere (C18-m6: what one handle
+                # learns about the chain must not depend on how far another handle of the file has got)
+                progs = [[("read", "/dir one/inner/deep file.bin", 1300, 300), ("read", "/dir one/inner/deep file.bin", 0, 1700)],
+                         [("read", "/dir one/inner/deep file.bin", 0, 600), ("read", "/dir one/inner/deep file.bin", 100, 50)]]
             solo = []
             for p in progs:
                 f, _ = mount(img)
@@ -136,7 +150,7 @@ def run(ctx):
             sc = one_schedule(ctx, img, progs, solo, S.preempt_policy({}), False, label, dict(rep0, preempt={}))
             n = sc.step
             pts = list(range(1, n + 1))
-            cap = ctx.scale(70 if pi > 1 else 600, 400 if pi > 1 else 3000)     # the two fixed programs: every single pre-emption point
+            cap = ctx.scale(70 if pi > 2 else 600, 400 if pi > 2 else 3000)     # the two fixed programs: every single pre-emption point
             if len(pts) > cap:
                 pts = sorted(rng.sample(pts, cap))
             else:
@@ -148,7 +162,9 @@ def run(ctx):
                 one_schedule(ctx, img, progs, solo, S.preempt_policy({a: 0, b: rng.choice([0, 1])}), False, label, dict(rep0, preempt={a: 0, b: 1}))
             # one pre-emption at every distinct source line of the in-memory directory tree (FATDirectoryEntry.py: the state readers share and, with
             # lazy loading, mutate) that thread t executes, for each thread t; thorough: at every distinct line of every pyfatfs module (D33)
-            if pi == 0 or ctx.tier == "thorough":
+            # for the two readers of one file (pi == 1): the lines of the handle code and of the chain follower — state reached through the
+            # shared directory entry of the file is shared by all its handles (C18-m6: a per-file memo of the chain, appended to by every seek)
+            if pi in (0, 1, 2) or ctx.tier == "thorough":
                 scb = S.Sched(len(progs), S.preempt_policy({}))
                 scb.record_kinds = True
                 fb, _ = mount(img, scb)
@@ -162,7 +178,7 @@ def run(ctx):
                     kinds.update({k: 0 for k in scb2.kinds.get(t, {})})
                     lines = [k for k in kinds if k.startswith("line:")]
                     if ctx.tier == "quick":
-                        lines = [k for k in lines if k.split(":")[1] in TREE_FUNCS]
+                        lines = [k for k in lines if k.split(":")[1] in (TREE_FUNCS if pi not in (1, 2) else HANDLE_FUNCS)]
                     cap_l = ctx.scale(160, 1500)
                     if len(lines) > cap_l:
                         lines = rng.sample(lines, cap_l)
